@@ -37,6 +37,17 @@ def self_check(pid, universe="D1", tag="selfcheck"):
     return r
 
 
+def check_and_gen(pid, check_universe, gen_universe, alts, heavy):
+    """the spec's self-check and the vector generation are independent TLC runs: side by side"""
+    from concurrent.futures import ThreadPoolExecutor
+    with ThreadPoolExecutor(max_workers=2) as ex:
+        f1 = ex.submit(self_check, pid, check_universe)
+        f2 = ex.submit(gen_vectors, pid, gen_universe, alts, heavy)
+        sc = f1.result()
+        vp, recs, unenc = f2.result()
+    return sc, vp, recs, unenc
+
+
 def run_obs(pid, vec_path, opts, tag="obs"):
     op = os.path.join(lib.outdir(pid), f"{tag}.ndjson")
     lib.harness(["etf-obs", vec_path, op, json.dumps(opts)])
